@@ -138,13 +138,21 @@ def run_case(arg):
             # 5. integer origin -> corner is the circular roll
             ro = np.array(case["rollOrigins"], dtype=float)
             rolled = np.array(case["rolled"], dtype=np.float32).reshape(sr, sc, dr, dc)
-            for bsz in [None] + list(range(1, n + 1)) + [n + 3]:      # every batch size, incl. non-dividing ones
+            for bi, bsz in enumerate([None] + list(range(1, n + 1)) + [n + 3]):      # every batch size, incl. non-dividing ones
                 om = CenterOfMassOriginModel.from_dataset(ds, device="cpu")
+                # the object's earlier life must not matter: nothing / a constant fit / a plane fit / a constant fit and
+                # a shift came before the per-pattern origins are installed
+                prior = (idx + bi) % 4
+                if prior:
+                    om.calculate_origin(max_batch_size=None)
+                    om.fit_origin_background(fit_method="constant" if prior != 2 or sr < 2 or sc < 2 else "plane")
+                    if prior == 3:
+                        om.shift_origin_to((0, 0), max_batch_size=2)
                 om.origin_fitted = torch.tensor(ro, dtype=torch.float)
                 om.shift_origin_to((0, 0), max_batch_size=bsz)
                 sh = om.shifted_tensor.detach().cpu().numpy().reshape(sr, sc, dr, dc)
                 if np.abs(sh - rolled).max() > 1e-3:
-                    bad("C18:origin-model:shift-roll", f"batch {bsz}: max deviation from the roll "
+                    bad("C18:origin-model:shift-roll", f"batch {bsz} (prior steps variant {prior}): max deviation from the roll "
                                                        f"{np.abs(sh - rolled).max():.4f}")
                     break
     except Exception as ex:  # noqa: BLE001
